@@ -90,6 +90,116 @@ def c13(ctx):
                   exhaustive=True)
 
 
+# ----------------------------------------------------------------------------- C08
+@prop("C08")
+def c08(ctx):
+    structs = ["prot", "unprot", "sign1P", "sign1U", "sign1uP", "sigP", "csigU", "signP", "signsig"]
+    consts = dict(MaxEntries=3 if ctx.quick() else 5, Structs=tlaset(structs))
+    cases = gen(ctx, "Gen_C08", cfgtext(invariants=["ImageDeterministic", "Emit"], constants=consts), timeout=3000, heap="8g")
+    cases += hdrgrid_cases(ctx)
+    events = harness(ctx, ["exec", "hdrgrid"], cases)
+    # a second process: Go seeds map iteration per process
+    ev2 = harness(ctx, ["exec", "hdrgrid"], cases)
+    for a, b in zip(events, ev2):
+        a["out2"] = b["out"]
+    rejects = judge(ctx, "Trace_C08", events)
+    return report(ctx, events, rejects,
+                  nontrivial=lambda e: e["enc"] == "ok",
+                  key=lambda e: (e["struct"], json.dumps(e["m"], sort_keys=True)),
+                  rule="TLC enumerates multi-entry header buckets (subsets of a pool whose bytewise key order disagrees with insertion order, "
+                       "mixed Go integer spellings, nested maps/arrays, countersignature values) and the C13 header grid, embedded in every "
+                       "structure; the real encoder runs 6 times in each of 2 processes; TLC judges: bytes identical, equal to the specification's "
+                       "canonical image, deterministic CBOR (also inside protected bstrs), decodable, decoded value has the same image; "
+                       "non-trivial = encoder accepted the value",
+                  exhaustive=True)
+
+
+# ----------------------------------------------------------------------------- wire-side flow: C07, C02, C09, C03
+def tlanums(xs):
+    return "{" + ", ".join(str(x) for x in xs) + "}"
+
+
+def wire_cases(ctx, mode, algs, depth, bases, inv=("Emit",), mutdepth=1):
+    consts = dict(AlgNs=tlanums(algs), Depth=depth, BaseIds=tlanums(bases), Mode='"%s"' % mode, MutDepth=mutdepth)
+    return gen(ctx, "Gen_Wire", cfgtext(invariants=list(inv), constants=consts), timeout=3000, heap="8g")
+
+
+def wire_respell_cases(ctx):
+    cases = []
+    if ctx.quick():
+        cases += wire_cases(ctx, "respell", [7], 1, range(1, 15), inv=("StaysConforming", "SizedBaseOK", "Emit"))
+        cases += wire_cases(ctx, "respell", [6, 36], 1, [1, 6], inv=("StaysConforming", "Emit"))
+        cases += wire_cases(ctx, "respell", [7], 2, [1, 4, 5, 7, 8], inv=("StaysConforming", "Emit"))
+    else:
+        cases += wire_cases(ctx, "respell", [6, 7, 34, 35, 36, 37, 38], 1, range(1, 15), inv=("StaysConforming", "SizedBaseOK", "Emit"))
+        cases += wire_cases(ctx, "respell", [7], 2, range(1, 11), inv=("StaysConforming", "Emit"))
+    seen, out = set(), []
+    for c in cases:
+        k = (c["kind"], tuple(c["wire"]), tuple(c["ext"]))
+        if k not in seen:
+            seen.add(k)
+            out.append(c)
+    return out
+
+
+def wire_prop(ctx, pid, cases, rule, nontrivial):
+    events = harness(ctx, ["exec", "wireflow"], cases)
+    rejects = judge(ctx, "Trace_Wire", events, extra_cfg='CONSTANT Prop = "%s"\n' % pid, per_shard=1500)
+    return report(ctx, events, rejects, nontrivial=nontrivial, key=lambda e: (e["kind"], tuple(e["wire"]), tuple(e["ext"])), rule=rule, exhaustive=True)
+
+
+WIRE_RULE = ("TLC enumerates conforming COSE_Sign1 (tagged/untagged, attached/detached, with/without alg + external data), COSE_Sign (1-2 signers) and "
+             "standalone COSE_Signature messages with nested countersignatures, and every encoder choice inside them (each head at each legal width, map "
+             "key orders, h''/h'a0', all-at-once variants; pairs per tier); the specification computes each signer's Sig_structure from the wire bytes; "
+             "the harness signs it with the Go standard library, installs the signature and runs the real decoder/verifier/encoder; TLC validates every event. ")
+
+
+@prop("C07")
+def c07(ctx):
+    return wire_prop(ctx, "C07", wire_respell_cases(ctx), WIRE_RULE + "non-trivial = message is Conforming per the specification", lambda e: True)
+
+
+@prop("C02")
+def c02(ctx):
+    return wire_prop(ctx, "C02", wire_respell_cases(ctx), WIRE_RULE + "non-trivial = a verifier call was recorded and compared with the specification's Sig_structure",
+                     lambda e: len(e.get("spy", [])) > 0)
+
+
+@prop("C03")
+def c03(ctx):
+    cases = []
+    if ctx.quick():
+        cases += wire_cases(ctx, "mut", [7], 0, range(1, 9))
+        cases += wire_cases(ctx, "mut", [6, 36], 0, [1, 6])
+        cases += wire_cases(ctx, "mut", [7], 1, [1])
+    else:
+        cases += wire_cases(ctx, "mut", [6, 7, 34, 35, 36], 0, range(1, 11))
+        cases += wire_cases(ctx, "mut", [7], 1, [1, 4, 5, 6, 8])
+        cases += wire_cases(ctx, "mut", [7], 0, [1, 4, 6, 8], mutdepth=2)
+    seen, out = set(), []
+    for c in cases:
+        k = (c["kind"], tuple(c["wire"]), tuple(c["ext"]), c["sigop"], c["alt"])
+        if k not in seen:
+            seen.add(k)
+            out.append(c)
+    events = harness(ctx, ["exec", "wireflow"], out)
+    rejects = judge(ctx, "Trace_Wire", events, extra_cfg='CONSTANT Prop = "C03"\n', per_shard=1500)
+    return report(ctx, events, rejects, nontrivial=lambda e: e["dec"] == "ok",
+                  key=lambda e: (e["kind"], tuple(e["wire"]), tuple(e["ext"]), e["sigop"], e["alt"]),
+                  rule="TLC enumerates validly signed messages of every kind and every single (per tier: double) edit of them: structural mutation at "
+                       "every tree position, whole-message edits, signature-length changes, in-place signature corruption, signatures made over other "
+                       "external data / payload / context / signer / key, verification under other external data; the real decoder and built-in verifier "
+                       "run on each; the standard library computes cryptoValid over the Sig_structure the specification derives from the received bytes; "
+                       "TLC judges verify = nil <=> prechecks and cryptoValid for every signer; non-trivial = message decoded, so a verdict was judged",
+                  exhaustive=True)
+
+
+@prop("C09")
+def c09(ctx):
+    return wire_prop(ctx, "C09", wire_respell_cases(ctx), WIRE_RULE + "non-trivial = decoded, re-encoded and compared with ReencodePrediction",
+                     lambda e: e.get("reenc") == "ok")
+
+
 def setup():
     ctx = Ctx("setup", "quick", 1)
     try:
